@@ -19,11 +19,10 @@ From PV.Model Require Import Names Pack Alloc Account.
 Import ListNotations.
 Local Open Scope Z_scope.
 
-(* a Directory Record: for a file, the inode it points to (None: a record without inode, which is
-   what add_hard_link creates when the old path is a directory) and a creation stamp, which
-   orders the records of one inode as inode.linked_records does *)
+(* a Directory Record: for a file, the inode it points to and a creation stamp, which orders the
+   records of one inode as inode.linked_records does *)
 Inductive lnode : Type :=
-| LFile (name : ident) (ino : option nat) (stamp : nat)
+| LFile (name : ident) (ino : nat) (stamp : nat)
 | LDir (name : ident) (dlen : Z) (kids : list lnode).
 
 Definition lname (n : lnode) : ident := match n with LFile nm _ _ => nm | LDir nm _ _ => nm end.
@@ -78,7 +77,7 @@ Fixpoint ltotal (w : lnode -> Z) (n : lnode) : Z :=
   end.
 
 Definition is_ref (i : nat) (n : lnode) : bool :=
-  match n with LFile _ (Some j) _ => Nat.eqb j i | _ => false end.
+  match n with LFile _ j _ => Nat.eqb j i | _ => false end.
 
 Definition lw_ref (i : nat) (n : lnode) : Z := if is_ref i n then 1 else 0.
 Definition lw_dlen (n : lnode) : Z := match n with LDir _ dl _ => dl | _ => 0 end.
@@ -129,7 +128,7 @@ Definition lrefuse (s : lstate) : lstate * bool := (s, false).
 
 (* new_file + _add_child_to_dr: insert a file record into the directory found at dirp.
    [tbl] / [extra]: the new inode table and the data bytes accounted together with the growth. *)
-Definition add_record (s : lstate) (dirp : path) (nm : ident) (ino : option nat)
+Definition add_record (s : lstate) (dirp : path) (nm : ident) (ino : nat)
            (tbl : itable) (extra : Z) : lstate * bool :=
   if too_deep dirp then lrefuse s
   else
@@ -163,17 +162,15 @@ Definition add_record (s : lstate) (dirp : path) (nm : ident) (ino : option nat)
 (* add_fp: a fresh inode (inode.Inode(); self.inodes.append(ino)) and its first record *)
 Definition lstep_add_file (s : lstate) (dirp : path) (nm : ident) (len : Z) : lstate * bool :=
   if negb ((0 <=? len) && (len <=? max_len)) then lrefuse s      (* outside the fragment *)
-  else add_record s dirp nm (Some (lnext s)) (linodes s ++ [(lnext s, len)]) len.
+  else add_record s dirp nm (lnext s) (linodes s ++ [(lnext s, len)]) len.
 
-(* add_hard_link: old_rec = _find_iso_record(old); data_ino = old_rec.inode -- None when the old
-   path is a directory (or the root), in which case the library still creates the record;
-   only the directory growth is accounted *)
+(* add_hard_link: old_rec = _find_iso_record(old); `if old_rec.is_dir(): raise` (a directory or
+   the root cannot be linked); data_ino = old_rec.inode; only the directory growth is accounted *)
 Definition lstep_add_link (s : lstate) (src dirp : path) (nm : ident) : lstate * bool :=
   match lsubtree src (lroot s) with
-  | None => lrefuse s                                            (* 'Could not find path' *)
-  | Some old =>
-      let data_ino := match old with LFile _ ino _ => ino | LDir _ _ _ => None end in
-      add_record s dirp nm data_ino (linodes s) 0
+  | Some (LFile _ data_ino _) => add_record s dirp nm data_ino (linodes s) 0
+  | Some (LDir _ _ _) => lrefuse s               (* 'Cannot make a hard link to a directory' *)
+  | None => lrefuse s                            (* 'Could not find path' *)
   end.
 
 Definition lstep_add_dir (s : lstate) (parent : path) (nm : ident) : lstate * bool :=
@@ -213,18 +210,15 @@ Definition lstep_rm_link (s : lstate) (dirp : path) (nm : ident) : lstate * bool
   match lsubtree dirp (lroot s) with
   | Some (LDir dn dl kids) =>
       match llookup nm kids with
-      | Some (k, LFile _ ino _) =>
+      | Some (k, LFile _ i _) =>
           let d := ldir_st dl kids in
           let shrink := if rm_underflows d (2 + k) then C else 0 in
           let d' := dir_remove C d (2 + k) in
           let root' := lreplace dirp (LDir dn (dlen d') (remove_at k kids)) (lroot s) in
           let '(tbl, data) :=
-            match ino with
-            | None => (linodes s, 0)
-            | Some i => if lrefcount i root' =? 0
-                        then (del_ino i (linodes s), len_of i (linodes s))
-                        else (linodes s, 0)
-            end in
+            if lrefcount i root' =? 0
+            then (del_ino i (linodes s), len_of i (linodes s))
+            else (linodes s, 0) in
           let num_bytes_to_remove := shrink + data in
           ({| lroot := root'; linodes := tbl; lnext := lnext s;
               lptr_size := lptr_size s; lptr_ext := lptr_ext s;
@@ -235,6 +229,9 @@ Definition lstep_rm_link (s : lstate) (dirp : path) (nm : ident) : lstate * bool
   end.
 
 (* ---- rm_file: `while child.inode.linked_records: _rm_dr_link(linked_records[0][0])` --------
+   (the `if child.inode is None` branch of _rm_file_inodes and the `inode is not None` tests are
+   not modelled: in this fragment every file record has an inode, add_hard_link refusing a
+   directory as the source)
    Records of the inode in different directories are independent, so the loop is modelled
    directory by directory; inside one directory the records go in linked_records order (smallest
    stamp first), each by its index, with remove_child's decision taken on the current state. *)
@@ -295,15 +292,7 @@ Definition lstep_rm_file (s : lstate) (dirp : path) (nm : ident) : lstate * bool
   match lsubtree dirp (lroot s) with
   | Some (LDir dn dl kids) =>
       match llookup nm kids with
-      | Some (k, LFile _ None _) =>               (* `if child.inode is None`: just the record *)
-          let d := ldir_st dl kids in
-          let shrink := if rm_underflows d (2 + k) then C else 0 in
-          let d' := dir_remove C d (2 + k) in
-          ({| lroot := lreplace dirp (LDir dn (dlen d') (remove_at k kids)) (lroot s);
-              linodes := linodes s; lnext := lnext s;
-              lptr_size := lptr_size s; lptr_ext := lptr_ext s;
-              lspace := lspace s - ceiling_div shrink C |}, true)
-      | Some (k, LFile _ (Some i) _) =>
+      | Some (k, LFile _ i _) =>
           let num_bytes_to_remove := purge_bytes i (lroot s) + len_of i (linodes s) in
           ({| lroot := purge_node i (lroot s);
               linodes := del_ino i (linodes s); lnext := lnext s;
@@ -379,7 +368,7 @@ Definition lvisit (s : lstate) : list lnode := lbfs (lnsize (lroot s)) [lroot s]
 Fixpoint file_list (t : itable) (recs : list lnode) : list nat :=
   match recs with
   | [] => []
-  | LFile _ (Some i) _ :: r => if len_of i t =? 0 then file_list t r else i :: file_list t r
+  | LFile _ i _ :: r => if len_of i t =? 0 then file_list t r else i :: file_list t r
   | _ :: r => file_list t r
   end.
 
@@ -404,11 +393,11 @@ Definition llayout_end (s : lstate) : Z := bump_end 0 (lobjects s).
 (* ---- the names in the image ---------------------------------------------------------------- *)
 
 (* every file record: (directory path, identifier, inode), in depth-first order *)
-Fixpoint lrecords (p : path) (n : lnode) : list (path * ident * option nat) :=
+Fixpoint lrecords (p : path) (n : lnode) : list (path * ident * nat) :=
   match n with
   | LFile nm ino _ => [(p, nm, ino)]
   | LDir nm _ kids =>
-      (fix go (l : list lnode) : list (path * ident * option nat) :=
+      (fix go (l : list lnode) : list (path * ident * nat) :=
          match l with
          | [] => []
          | c :: r => (match c with
@@ -430,8 +419,7 @@ Fixpoint ldirs (p : path) (n : lnode) : list path :=
               end) kids
   end.
 
-Definition rec_is (i : nat) (r : path * ident * option nat) : bool :=
-  match snd r with Some j => Nat.eqb j i | None => false end.
+Definition rec_is (i : nat) (r : path * ident * nat) : bool := Nat.eqb (snd r) i.
 
 (* ---- harness -------------------------------------------------------------------------------- *)
 
